@@ -1,8 +1,13 @@
 import CotengraVerif.Driver.Util
 import CotengraVerif.Model.Reuse
+import CotengraVerif.Model.ReuseNest
+import CotengraVerif.Model.ReusePool
+import CotengraVerif.Model.ReuseIface
+import CotengraVerif.Model.ReuseShared
 
 namespace Cotengra.Driver.C16
 open Lean Cotengra Cotengra.Driver Cotengra.Hyper Cotengra.Reuse
+open Cotengra.ReuseNest Cotengra.ReusePool Cotengra.ReuseIface Cotengra.ReuseShared
 
 def scoreOf (j : Json) : Except String Score :=
   match j with
@@ -71,6 +76,321 @@ def run : Handler := fun j => do
             jArr [jNat k, jBool ((s.objs (cfg.objOf t)).cache k).isSome]))]
   pure (jObj [("threads", jArr outs)])
 
-def handlers : List (String × Handler) := [("c16.run", run)]
+
+/-! ### nested queries: `c16.nrun` -/
+
+def modeOf (s : String) : Except String Mode :=
+  match s with
+  | "reusable" => pure Mode.reusable
+  | "auto_cached" => pure Mode.autoCached
+  | "auto_plain" => pure Mode.autoPlain
+  | s => throw s!"unknown kind {s}"
+
+def overwriteOf (s : String) : Except String Overwrite :=
+  match s with
+  | "no" => pure Overwrite.no
+  | "yes" => pure Overwrite.yes
+  | "improved" => pure Overwrite.improved
+  | s => throw s!"unknown overwrite {s}"
+
+def trialOfScore (s : Score) : Trial :=
+  { score := s, flops := s, write := s, size := s, tree := if s.isSome then some 0 else none }
+
+/-- `{"q":[net,key,hard],"kind":..,"obj":n,"call":bool,"trials":[{"nested":[..],"score":n|null}]}` -/
+partial def qtreeOf (j : Json) : Except String QTree := do
+  let q ← match ← arrOf (← field j "q") with
+    | [n, k, h] => pure ({ net := ← natOf n, key := ← natOf k, hard := ← h.getBool? } : Query)
+    | _ => throw "query must be [net, key, hard]"
+  let kind ← modeOf (← (← field j "kind").getStr?)
+  let obj ← natOf (← field j "obj")
+  let call ← (fieldD j "call" (Json.bool false)).getBool?
+  let trials ← (← arrOf (← field j "trials")).mapM fun tj => do
+    let nested ← (← arrOf (fieldD tj "nested" (jArr []))).mapM qtreeOf
+    let sc ← scoreOf (fieldD tj "score" Json.null)
+    pure (nested, (⟨0, 0⟩ : Setting), trialOfScore sc)
+  pure (.node q kind obj call trials)
+
+def labelName : Label → String
+  | .silent => "silent" | .hash => "hash" | .getopt => "getopt" | .alloc => "alloc"
+  | .call => "call" | .trial => "trial" | .search => "search" | .store => "store"
+  | .cacheGet => "cacheGet" | .cacheSet => "cacheSet" | .ret => "ret"
+
+/-- one small step of thread `t`, with its label -/
+def nstepL (cfg : NCfg) (s : NSys) (t : Nat) : NSys × Label :=
+  let x := stepThread cfg t (s.threads t) s.objs
+  (ReuseNest.step cfg s t, x.2.2)
+
+def quiescent (s : NSys) (t : Nat) : Bool :=
+  (s.threads t).stack.isEmpty && (s.threads t).queue.isEmpty
+
+/-- thread `t` runs small steps (all through `ReuseNest.step`) until it has made a step with an
+    observable label, or — for the expected label "end" — until a top-level query has returned.
+    Returns the state and what ended the segment. -/
+def runSegment (cfg : NCfg) (observable : List String) (t : Nat) : Nat → NSys → NSys × String
+  | 0, s => (s, "out-of-fuel")
+  | fuel + 1, s =>
+    if quiescent s t then (s, "quiescent")
+    else
+      let (s1, l) := nstepL cfg s t
+      let nm := labelName l
+      if observable.contains nm then (s1, nm)
+      else if l == Label.ret && (s1.threads t).stack.isEmpty then (s1, "end")
+      else runSegment cfg observable t fuel s1
+
+def runSegments (cfg : NCfg) (observable : List String) (fuel : Nat) :
+    List (Nat × String) → Nat → NSys → NSys × Option (Nat × String × String)
+  | [], _, s => (s, none)
+  | (t, lab) :: rest, i, s =>
+    let (s1, got) := runSegment cfg observable t fuel s
+    if got == lab then runSegments cfg observable fuel rest (i + 1) s1
+    else (s1, some (i, lab, got))
+
+/-- run every thread to the end of its program (round robin over whole threads) -/
+def runToEnd (cfg : NCfg) (n : Nat) (fuel : Nat) (s : NSys) : NSys :=
+  (List.range n).foldl (fun s t =>
+    (List.range fuel).foldl (fun s _ => if quiescent s t then s else ReuseNest.step cfg s t) s) s
+
+/-- op `c16.nrun`: nested queries under a schedule given in segments.
+    `overwrite`: [[obj, "no"|"yes"|"improved"]]; `cache_only`: [obj]; `register_first`: bool;
+    `queues`: per thread a list of nesting trees; `segments`: [[thread, label]] — the thread runs
+    until its next step with an observable label, which must be the given one ("end" = a
+    top-level query returned); `observable`: which labels the harness has yield points for;
+    `probe`: [[obj, key]] cache entries to report.  After the segments every thread is run to
+    the end of its program. -/
+def nrun : Handler := fun j => do
+  let ovs ← (← arrOf (fieldD j "overwrite" (jArr []))).mapM fun p => do
+    match ← arrOf p with
+    | [o, v] => pure (← natOf o, ← overwriteOf (← v.getStr?))
+    | _ => throw "overwrite entry must be [obj, mode]"
+  let cos ← natList (fieldD j "cache_only" (jNats []))
+  let regFirst ← (fieldD j "register_first" (Json.bool false)).getBool?
+  let queues ← (← arrOf (← field j "queues")).mapM fun qs => do (← arrOf qs).mapM qtreeOf
+  let segs ← (← arrOf (fieldD j "segments" (jArr []))).mapM fun p => do
+    match ← arrOf p with
+    | [t, l] => pure (← natOf t, ← l.getStr?)
+    | _ => throw "segment must be [thread, label]"
+  let observable ← (← arrOf (fieldD j "observable" (jArr []))).mapM fun x => x.getStr?
+  let probe ← pairList (fieldD j "probe" (jArr []))
+  let fuel ← natOf (fieldD j "fuel" (jNat 2000))
+  let cfg : NCfg :=
+    { overwrite := fun o => match ovs.find? (·.1 == o) with | some p => p.2 | none => .no,
+      cacheOnly := fun o => cos.contains o, registerFirst := regFirst }
+  let s0 := NSys.start fun t => queues.getD t []
+  let (s1, mism) := runSegments cfg observable fuel segs 0 s0
+  let n := queues.length
+  let s := runToEnd cfg n fuel s1
+  let outs := (List.range n).map fun t =>
+    let th := s.threads t
+    jObj [("results", jArr (th.results.map fun r =>
+            jArr [jNat r.q.net, jNat r.depth, jBool r.viaCall, jOptNat r.got])),
+          ("nalloc", jNat th.nalloc), ("stack", jNat th.stack.length),
+          ("left", jNat th.queue.length),
+          ("after_segments", jNat ((s1.threads t).results.length))]
+  let cached := probe.map fun (o, k) => jArr [jNat o, jNat k, jBool ((s.objs o).cache k).isSome]
+  let mj := match mism with
+    | none => Json.null
+    | some (i, e, g) => jObj [("segment", jNat i), ("expected", jStr e), ("got", jStr g)]
+  pure (jObj [("threads", jArr outs), ("cached", jArr cached), ("mismatch", mj)])
+
+/-! ### overlapping pool-parallel searches: `c16.pool` -/
+
+def idxOf (l : List Fut) (o k : Nat) : Option Nat :=
+  (l.zipIdx.find? fun (f, _) => f.origin == o && f.k == k).map (·.2)
+
+/-- op `c16.pool`: `fresh`: bool; `nets`: contraction of each search; `scores`: per search, the
+    score of its k-th submission (null = failed trial); `events`: ["begin",σ] | ["submit",σ] |
+    ["harvest",σ,origin,k] (the future that search σ reported) | ["cancel",σ].  A harvested future
+    that is not in the model's list of σ is reported as a mismatch (the event is skipped). -/
+def pool : Handler := fun j => do
+  let fresh ← (fieldD j "fresh" (Json.bool true)).getBool?
+  let nets ← natList (← field j "nets")
+  let scores ← (← arrOf (← field j "scores")).mapM fun per => do (← arrOf per).mapM scoreOf
+  let cfg : PCfg :=
+    { freshList := fresh,
+      queryOf := fun σ => { net := nets.getD σ 0, key := σ, hard := true },
+      envs := fun σ => { getSetting := fun st => ⟨0, st.submitted⟩,
+                         trialFn := fun k _ => trialOfScore ((scores.getD σ []).getD k none) } }
+  let evs ← arrOf (← field j "events")
+  let mut s := PSys.start
+  let mut mism : List Json := []
+  let mut i := 0
+  for e in evs do
+    match ← arrOf e with
+    | [tag, a] =>
+      let σ ← natOf a
+      match ← tag.getStr? with
+      | "begin" => s := pstep cfg s (.begin σ)
+      | "submit" => s := pstep cfg s (.submit σ)
+      | "cancel" => s := pstep cfg s (.cancel σ)
+      | t => throw s!"unknown event {t}"
+    | [tag, a, o, k] =>
+      if (← tag.getStr?) != "harvest" then throw "expected harvest"
+      let σ ← natOf a
+      let o ← natOf o
+      let k ← natOf k
+      match idxOf (s.lists (s.searches σ).list) o k with
+      | some c => s := pstep cfg s (.harvest σ c)
+      | none => mism := mism ++ [jObj [("event", jNat i), ("search", jNat σ), ("origin", jNat o), ("k", jNat k)]]
+    | _ => throw "bad event"
+    i := i + 1
+  let outs := (List.range nets.length).map fun σ =>
+    let sr := s.searches σ
+    jObj [("reported", jArr (sr.reported.map fun f => jArr [jNat f.origin, jNat f.k])),
+          ("cancelled", jArr (sr.cancelled.map fun f => jArr [jNat f.origin, jNat f.k])),
+          ("tree", jOptNat sr.h.tree), ("ntrials", jNat sr.h.scores.length),
+          ("pending", jNat (s.lists sr.list).length), ("submitted", jNat sr.h.submitted)]
+  pure (jObj [("searches", jArr outs), ("mismatch", jArr mism)])
+
+/-! ### the path cache of the functional interface: `c16.iface` -/
+
+def ipcName : IPC → String
+  | .idle => "idle" | .missed _ => "missed" | .found _ _ => "found"
+
+/-- which access of `_PATH_CACHE` the next step of thread `t` makes ("" = none) -/
+def ilabel (cfg : ICfg) (s : ISys) (t : Nat) : String :=
+  match (s.threads t).pc with
+  | .idle =>
+    match (s.threads t).queue with
+    | [] => "quiescent"
+    | q :: _ => if (s.cache (cfg.keyOf q)).isSome then "hit" else "miss"
+  | .missed _ => ""
+  | .found _ _ => "store"
+
+/-- thread `t` steps (all through `ReuseIface.istep`) until it has made an access to `_PATH_CACHE`;
+    "end" = it finished a query without a further access -/
+def irunSegment (cfg : ICfg) (t : Nat) : Nat → ISys → ISys × String
+  | 0, s => (s, "out-of-fuel")
+  | fuel + 1, s =>
+    let l := ilabel cfg s t
+    if l == "quiescent" then (s, "quiescent")
+    else
+      let s1 := istep cfg s t
+      if l == "" then irunSegment cfg t fuel s1 else (s1, l)
+
+/-- op `c16.iface`: `queues`: per thread [[net, preset]]; `segments`: [[thread, "hit"|"miss"|
+    "store"|"end"]] ("end": the thread's query returned: after a hit or a store the harness yields
+    once more between two queries); `probe`: [[net, preset]] keys to report. -/
+def iface : Handler := fun j => do
+  let queues ← (← arrOf (← field j "queues")).mapM fun qs => do
+    (← arrOf qs).mapM fun q => do
+      match ← arrOf q with
+      | [n, p] => pure ({ net := ← natOf n, preset := ← natOf p } : IQuery)
+      | _ => throw "query must be [net, preset]"
+  let segs ← (← arrOf (fieldD j "segments" (jArr []))).mapM fun p => do
+    match ← arrOf p with
+    | [t, l] => pure (← natOf t, ← l.getStr?)
+    | _ => throw "segment must be [thread, label]"
+  let probe ← pairList (fieldD j "probe" (jArr []))
+  let cfg : ICfg := { keyOf := fun q => q.net * 64 + q.preset % 64, inner := fun _ _ q => q.net }
+  let mut s := ISys.start fun t => queues.getD t []
+  let mut mism : Json := Json.null
+  let mut i := 0
+  for (t, lab) in segs do
+    if mism == Json.null then
+      if lab == "end" then
+        -- the query has returned already (hit / store finish it); nothing to step
+        pure ()
+      else
+        let (s1, got) := irunSegment cfg t 8 s
+        s := s1
+        if got != lab then
+          mism := jObj [("segment", jNat i), ("expected", jStr lab), ("got", jStr got)]
+    i := i + 1
+  let n := queues.length
+  let outs := (List.range n).map fun t =>
+    let th := s.threads t
+    jObj [("results", jArr (th.results.map fun (q, p) => jArr [jNat q.net, jNat q.preset, jNat p])),
+          ("ncalls", jNat th.ncalls), ("pc", jStr (ipcName th.pc)), ("left", jNat th.queue.length)]
+  let cached := probe.map fun (nn, p) =>
+    jArr [jNat nn, jNat p, jBool (s.cache (cfg.keyOf { net := nn, preset := p })).isSome]
+  pure (jObj [("threads", jArr outs), ("cached", jArr cached), ("mismatch", mism)])
+
+/-! ### object identity of the sub-optimizer: `c16.srun` -/
+
+def spcName : SPC → String
+  | .idle => "idle" | .hashed _ _ => "hashed" | .searching _ _ _ _ => "searching" | .ran _ _ _ => "ran"
+  | .stored _ _ _ => "stored" | .compare _ _ _ => "compare" | .have _ _ _ => "have"
+
+/-- the shared access a step ended with, read off the program points before and after it -/
+def slabel (before after : SThread) : String :=
+  if after.results.length > before.results.length then "end"
+  else match after.pc with
+    | .hashed _ _ => "hash"
+    | .ran _ _ _ => "search"
+    | .stored _ _ _ => "store"
+    | .compare _ _ _ => "cacheGet"
+    | .have _ _ _ => (match before.pc with | .hashed _ _ => "cacheGet" | _ => "cacheSet")
+    | _ => ""
+
+def squiescent (s : SSys) (t : Nat) : Bool :=
+  (match (s.threads t).pc with | .idle => true | _ => false) && (s.threads t).queue.isEmpty
+
+/-- thread `t` steps (through `ReuseShared.sstep`) until a labelled step; also returns the
+    references of the sub-optimizer objects handed out on the way -/
+def srunSegment (cfg : SCfg) (t : Nat) : Nat → SSys → List Nat → SSys × String × List Nat
+  | 0, s, refs => (s, "out-of-fuel", refs)
+  | fuel + 1, s, refs =>
+    if squiescent s t then (s, "quiescent", refs)
+    else
+      let s1 := sstep cfg s t
+      let refs1 := match (s.threads t).pc, (s1.threads t).pc with
+        | .hashed _ _, .searching _ _ r _ => refs ++ [r]
+        | _, _ => refs
+      let l := slabel (s.threads t) (s1.threads t)
+      if l == "" then
+        -- a blocked thread (lock taken) does not move: give up the segment
+        if spcName (s1.threads t).pc == "hashed" && spcName (s.threads t).pc == "hashed" then (s1, "blocked", refs1)
+        else srunSegment cfg t fuel s1 refs1
+      else (s1, l, refs1)
+
+/-- op `c16.srun`: `policy`: "fresh" | "shared"; `overwrite`, `cache_only`; `queues`: per thread
+    [[net, key, hard]]; `trials`: per thread, per sub-search, list of scores; `segments`:
+    [[thread, label]].  Returns per thread results / nsearch / pc, the references of the
+    sub-optimizer objects in the order they were handed out, cached keys. -/
+def srunOp : Handler := fun j => do
+  let policy ← match ← (fieldD j "policy" (jStr "fresh")).getStr? with
+    | "fresh" => pure Policy.fresh
+    | "shared" => pure Policy.shared
+    | s => throw s!"unknown policy {s}"
+  let ov ← overwriteOf (← (fieldD j "overwrite" (jStr "no")).getStr?)
+  let cacheOnly ← (fieldD j "cache_only" (Json.bool false)).getBool?
+  let queues ← (← arrOf (← field j "queues")).mapM fun qs => do
+    (← arrOf qs).mapM fun q => do
+      match ← arrOf q with
+      | [n, k, h] => pure ({ net := ← natOf n, key := ← natOf k, hard := ← h.getBool? } : Query)
+      | _ => throw "query must be [net, key, hard]"
+  let trials ← (← arrOf (← field j "trials")).mapM fun per => do
+    (← arrOf per).mapM fun log => do
+      (← arrOf log).mapM fun sc => do
+        pure ((⟨0, 0⟩ : Setting), trialOfScore (← scoreOf sc))
+  let segs ← (← arrOf (fieldD j "segments" (jArr []))).mapM fun p => do
+    match ← arrOf p with
+    | [t, l] => pure (← natOf t, ← l.getStr?)
+    | _ => throw "segment must be [thread, label]"
+  let cfg : SCfg := { policy := policy, overwrite := ov, cacheOnly := cacheOnly,
+                      trials := fun t i => ((trials.getD t []).getD i []) }
+  let mut s := SSys.start fun t => queues.getD t []
+  let mut refs : List Nat := []
+  let mut mism : Json := Json.null
+  let mut i := 0
+  for (t, lab) in segs do
+    if mism == Json.null then
+      let (s1, got, refs1) := srunSegment cfg t 64 s refs
+      s := s1
+      refs := refs1
+      if got != lab then
+        mism := jObj [("segment", jNat i), ("expected", jStr lab), ("got", jStr got)]
+    i := i + 1
+  let n := queues.length
+  let outs := (List.range n).map fun t =>
+    let th := s.threads t
+    let keys := ((queues.getD t []).map (·.key)).eraseDups
+    jObj [("results", jArr (th.results.map fun (q, r) => jArr [jNat q.net, jOptNat r])),
+          ("nsearch", jNat th.nsearch), ("pc", jStr (spcName th.pc)), ("left", jNat th.queue.length),
+          ("cached", jArr (keys.map fun k => jArr [jNat k, jBool (s.obj.cache k).isSome]))]
+  pure (jObj [("threads", jArr outs), ("refs", jNats refs), ("mismatch", mism)])
+
+def handlers : List (String × Handler) :=
+  [("c16.run", run), ("c16.nrun", nrun), ("c16.pool", pool), ("c16.iface", iface), ("c16.srun", srunOp)]
 
 end Cotengra.Driver.C16
